@@ -247,7 +247,7 @@ func genHist(g *hx.Gen) {
 }
 
 func gen(g *hx.Gen) {
-	n := g.Count(5000, 150000)
+	n := g.Count(4000, 150000)
 	for i := 0; i < n; i++ {
 		if g.R.Chance(1, 8) {
 			alg := g.R.PickStr("b", "b", "b", "s")
